@@ -19,6 +19,14 @@ operation up in a table generated from the docstring "Raises" sections of the co
 exception it raises on valid operands over one alphabet is a violation.  Results that differ
 only in generated state names are compared by an EXACT language comparison (product BFS,
 harness/langoracle.py) plus equal state counts.
+
+Round 4:
+(7) `restored_family`: the automata the library RESTORES or COPIES — pickle round trip (every protocol),
+    copy.copy, copy.deepcopy, copy(), twins of twins — are as usable as the original: the same battery of
+    operations, every answer equal to the original's, every public attribute readable and equal.
+(8) `lookalike_options_family`: allow_mutable_automata=True with the definition handed over in dict / set
+    subclasses (defaultdict, OrderedDict, __missing__, set subclass): accepted, same answers as the default
+    configuration, and after every read / operation the object still passes validate() and copy().
 """
 from __future__ import annotations
 
@@ -42,8 +50,17 @@ RULE = ("cases = (class, definition, expectation): valid-by-documentation defini
         "lambda-only tables, empty target sets, alphabets {a,b} / {a} / {}) through every unary operation and run, and "
         "for DFA / NFA every binary method on ordered pairs (degenerate × degenerate: a seeded sample in quick, all in "
         "thorough; degenerate × shaped-random in both orders), each call under all four option combinations with the "
-        "result re-validated. Non-trivial: the definition has ≥2 states and ≥1 transition; distinct "
-        "= distinct (class, encoded definition, expectation/op) tuples")
+        "result re-validated. Round 4: RESTORED / COPIED twins of accepted definitions of all 8 classes (pickle round "
+        "trip under every protocol, copy.copy, copy.deepcopy, copy(), second-generation twins; made before or after the "
+        "original was used; one option combination per case, all four in rotation): the whole battery of unary operations "
+        "in a shuffled order plus a sample of binary operations with the twin on either side (against a second automaton "
+        "and against its own original) and every public attribute — each answer equal to the original's (same value or "
+        "same exception class), results re-validated; and allow_mutable_automata=True × {validation on, off} × the six "
+        "container look-alikes of harness/lookalike.py (defaultdict outer+rows / outer only, OrderedDict, __missing__ "
+        "inserting / defaulting, set subclass) × every operation, query and run (words over the alphabet, with a foreign "
+        "symbol, and words the automaton accepts): answers equal to the default configuration built from plain "
+        "containers, and after every call validate() and copy() of the operand still succeed. Non-trivial: the "
+        "definition has ≥2 states and ≥1 transition; distinct = distinct (class, encoded definition, expectation/op) tuples")
 ASSUMPTIONS = [
     "definitions are type-correct (the container shapes of the class docstrings); names hashable",
     "empty input alphabets are inside the domain (validate() accepts them); the one operation family that fails on them — "
@@ -62,6 +79,11 @@ ASSUMPTIONS = [
     "GNFA labels: re._validate is an oracle bit supplied by the real code (the regex validator is the subject of C11)",
     "list-as-set model: the states container has no duplicates (it is a Python set)",
     "non-terminating PDA/TM runs are cut after 40 steps (or 150 simultaneous configurations); read_input/accepts_input are only called when the bounded stepwise run ended",
+    "a twin (restored / copied object) must answer as its original: literally, or — automata and regexes — up to generated "
+    "state names with exactly the same language; words_of_length / iteration listings as sets (their order is not "
+    "documented); random_word: any word of the requested length in the language (the seed-to-word mapping is not documented)",
+    "container look-alikes under the mutable option are subclasses of dict / set with the same content (the documented "
+    "parameter types are Mapping / AbstractSet); the reference answers are those of the default configuration on plain containers",
     "results of the four option combinations are compared literally; when set iteration order makes library-generated state names differ: same class, alphabet, number of states and EXACTLY the same language (product BFS over the two definitions, harness/langoracle.py)",
 ]
 EXPLANATION = ("Theorems C19_* state validate = ok ↔ well-formed (declarative), that every raised error is the documented "
@@ -465,6 +487,334 @@ def degenerate_family(ctx: Ctx, rng):
                     binary_under_options(ctx, cls, name, fn, k2, kw, a, f"random × degenerate:{tag}")
 
 
+# ------------------------------------------------------------------ restored / copied twins
+ROLES = ("twin,other", "other,twin", "twin,original", "original,twin")
+
+
+def twin_makers():
+    """Every way the library itself hands back "the same automaton again": a pickle round trip (every
+    protocol), copy.copy, copy.deepcopy (all three go through __reduce_ex__ / __getstate__ / __setstate__),
+    Automaton.copy(), and second-generation twins (a twin of a twin)."""
+    import copy
+    import pickle
+
+    def pk(p):
+        return lambda o: pickle.loads(pickle.dumps(o, protocol=p))
+    out = [(f"pickle round trip (protocol {p})", pk(p)) for p in range(pickle.HIGHEST_PROTOCOL + 1)]
+    out += [("copy.copy", copy.copy), ("copy.deepcopy", copy.deepcopy), ("copy()", lambda o: o.copy()),
+            ("copy.copy of a pickle round trip", lambda o: copy.copy(pk(None)(o))),
+            ("pickle round trip of copy()", lambda o: pk(None)(o.copy())),
+            ("copy.deepcopy of copy.copy", lambda o: copy.deepcopy(copy.copy(o)))]
+    return out
+
+
+def public_attributes(obj) -> Dict[str, Any]:
+    """Public data attributes stored on the instance: the slots of the whole class hierarchy plus the
+    __dict__ entries that are not per-instance caches of methods (cached_method keys them by method name)."""
+    names = set()
+    for k in type(obj).__mro__:
+        sl = k.__dict__.get("__slots__", ())
+        names.update([sl] if isinstance(sl, str) else sl)
+    names.update(k for k in getattr(obj, "__dict__", {}) if not hasattr(type(obj), k))
+    out = {}
+    for n in sorted(x for x in names if not x.startswith("_")):
+        try:
+            v = getattr(obj, n)
+        except AttributeError:
+            continue  # a slot that was never filled
+        if not callable(v):
+            out[n] = v
+    return out
+
+
+def twin_plan(rng, cls: str, alphabet, with_binary: bool, n_binary: int = 6):
+    """[name, arity, argument pack, role] for every unary operation of the class and a sample of the binary
+    ones (the twin as left / right operand, against a second automaton and against its own original)."""
+    plan = [[name, 1, M.arg_pack(rng, alphabet), None] for name, _ in M.unary_ops(cls)]
+    bops = M.binary_ops(cls) if with_binary else []
+    for name, _ in rng.sample(bops, min(len(bops), n_binary)):
+        plan.append([name, 2, M.arg_pack(rng, alphabet), rng.choice(ROLES)])
+    return plan
+
+
+def _twin_call(fns, entry, subject, original, other):
+    name, ar, a, role = entry
+    if ar == 1:
+        return run_op(fns[name], subject, a)
+    x, y = {"twin,other": (subject, other), "other,twin": (other, subject), "twin,original": (subject, original),
+            "original,twin": (original, subject)}[role]
+    return run_op(fns[name], x, y, a)
+
+
+def same_answer(cls, name, res, base, alphabet, reference, base_key=None) -> bool:
+    """Two outcomes of one call — on a twin and on its original: same exception class, or the same value
+    (literally; automata / regexes up to generated names; listings whose order the documentation does not fix
+    as sets; random_word: any word of that length in the language)."""
+    if outcome_key(res) == (base_key if base_key is not None else outcome_key(base)):
+        return True
+    if res[0] != base[0] or res[0] == "err":
+        return False
+    if same_modulo_names(cls, name, res, base, alphabet):
+        return True
+    r, b = res[1], base[1]
+    if name.endswith(("words_of_length", "__iter__")) and isinstance(r, list) and isinstance(b, list):
+        if len(r) != len(b) or sorted(map(len, r)) != sorted(map(len, b)) or len(set(r)) != len(r):
+            return False
+        return sorted(r) == sorted(b) or all(reference.accepts_input(w) for w in r)  # (truncated listings)
+    if name.endswith("random_word") and isinstance(r, str) and isinstance(b, str):
+        return len(r) == len(b) and reference.accepts_input(r)
+    return False
+
+
+@guarded
+def restored_case(ctx: Ctx, cls: str, kw, kw2, sv: bool, am: bool, rng, origin: str, makers=None, plan=None,
+                  used_before: Optional[bool] = None):
+    """(3)/(4)/(5) on the automata the library RESTORES or COPIES: an accepted definition, built under one
+    option combination; twins obtained by pickle (all protocols), copy.copy, copy.deepcopy, copy() and twins of
+    twins — some made before the original answered anything, some after (its caches are filled then) — are put
+    through the same battery as the original (every unary operation, query, run and conversion in a shuffled
+    order, a sample of the binary operations with the twin on either side), and every public attribute of the
+    original is read on the twin: each answer must equal the original's (same value or same exception class),
+    and every automaton a twin returns passes validate()."""
+    alphabet = kw["input_symbols"]
+    o = M.construct(cls, G._dc(kw), sv, am)
+    if o[0] != "ok":
+        return
+    obj, other = o[1], None
+    if M.binary_ops(cls):
+        if kw2 is None:
+            kw2 = G.rand_def(rng, cls, alphabet=sorted(alphabet))
+        o2 = M.construct(cls, G._dc(kw2), sv, am)
+        other = o2[1] if o2[0] == "ok" else None
+    replaying = plan is not None
+    if plan is None:
+        plan = twin_plan(rng, cls, alphabet, other is not None)
+    fns = dict(M.unary_ops(cls) + M.binary_ops(cls))
+    chosen = [m for m in twin_makers() if makers is None or m[0] in makers]
+    if makers is None and not ctx.thorough():
+        # quick tier: two of the pickle protocols per case (all of them over the run), every other maker
+        pk = [m for m in chosen if m[0].startswith("pickle round trip (protocol")]
+        keep = set(h for h, _ in rng.sample(pk, 2))
+        chosen = [m for m in chosen if m not in pk or m[0] in keep]
+    if used_before is None:
+        early = {how for how, _ in chosen if rng.random() < 0.5}
+    else:
+        early = set() if used_before else {how for how, _ in chosen}
+    twins = {}
+    with M.options(sv, am):
+        for how, mk in chosen:
+            if how in early:
+                twins[how] = run_op(mk, obj)
+        base = [_twin_call(fns, e, obj, obj, other) for e in plan]
+        bkeys = [outcome_key(b) for b in base]
+        attrs = public_attributes(obj)
+        for how, mk in chosen:
+            if how not in twins:
+                twins[how] = run_op(mk, obj)
+    where = f"should_validate={sv}, allow_mutable={am}"
+    for how, _ in chosen:
+        t = twins[how]
+        rp0 = dict(cls=cls, kind="restored", kwargs=repr(kw), rhs=repr(kw2) if other is not None else None, sv=sv,
+                   am=am, how=how, used_before=how not in early, origin=origin)
+        ctx.case((cls, "restored", how, sv, am, E.enc_def(cls, kw)) if nontrivial(kw) else None)
+        ctx.stat(f"restored:{how}")
+        ctx.stat(f"restored:{cls}:sv={int(sv)},am={int(am)}")
+        if t[0] == "err":
+            ctx.prop_fail(f"{how} of an accepted {cls} ({where}) raises {type(t[1]).__name__}: {str(t[1])[:120]}",
+                          dict(rp0, trace=[]), None)
+            continue
+        twin = t[1]
+        if type(twin) is not type(obj):
+            ctx.prop_fail(f"{how} of an accepted {cls} ({where}) gives a {type(twin).__name__}", dict(rp0, trace=[]), None)
+            continue
+        bad = False
+        for n, v in attrs.items():
+            try:
+                tv = getattr(twin, n)
+            except Exception as e:  # noqa: BLE001
+                bad = True
+                ctx.prop_fail(f"reading .{n} of the {cls} given by {how} ({where}) raises {type(e).__name__}: "
+                              f"{str(e)[:100]} — the original answers {v!r:.80}", dict(rp0, trace=[], attr=n), None)
+                break
+            if G.norm(tv) != G.norm(v):
+                bad = True
+                ctx.prop_fail(f".{n} of the {cls} given by {how} ({where}) is {tv!r:.80}, the original's is {v!r:.80}",
+                              dict(rp0, trace=[], attr=n), None)
+                break
+        if bad:
+            continue
+        order = list(range(len(plan)))
+        if not replaying:
+            rng.shuffle(order)
+        trace = []
+        for i in order:
+            e = plan[i]
+            name = e[0]
+            trace.append(e)
+            with M.options(sv, am):
+                res = _twin_call(fns, e, twin, obj, other)
+            ctx.stat("restored:calls")
+            rp = dict(rp0, trace=list(trace))
+            if not same_answer(cls, name, res, base[i], alphabet, obj, bkeys[i]):
+                what = name + (f" [{e[3]}]" if e[3] else "")
+                det = (f"raises {type(res[1]).__name__}: {str(res[1])[:100]}" if res[0] == "err"
+                       else f"answers {res[1]!r:.80}")
+                bdet = (f"raises {type(base[i][1]).__name__}" if base[i][0] == "err" else f"answers {base[i][1]!r:.80}")
+                ctx.prop_fail(f"{what} on the {cls} given by {how} ({where}; twin made "
+                              f"{'after' if how not in early else 'before'} the original was used) {det} — on the "
+                              f"original it {bdet}", rp, None)
+                break
+            if not validate_result(ctx, f"{name} on the {cls} given by {how} ({where})", res, rp):
+                break
+
+
+def restored_family(ctx: Ctx, rng, count: int):
+    """Accepted definitions of all 8 classes (shaped random, rows keyed by non-states, degenerate shapes),
+    the four option combinations in rotation."""
+    from harness import gen_degenerate as DG
+    for i in range(count):
+        for j, cls in enumerate(G.CLASSES):
+            sv, am = COMBOS[(i + j) % 4]
+            kw = G.rand_def(rng, cls, junk=cls in G.JUNK_CLASSES and rng.random() < 0.3)
+            restored_case(ctx, cls, kw, None, sv, am, rng, "valid")
+    for cls in G.CLASSES:
+        al = rng.choice([("a", "b"), ("a",)])
+        accepted = [(tag, kw) for tag, kw in DG.degenerate_defs(cls, al, rng.choice(sorted(DG.NAME_STYLES)))
+                    if impl_validate(cls, kw) == "ok"]
+        for tag, kw in rng.sample(accepted, min(len(accepted), ctx.budget(2, 12))):
+            sv, am = rng.choice(COMBOS)
+            restored_case(ctx, cls, kw, None, sv, am, rng, f"degenerate:{tag}")
+
+
+# ------------------------------------------------------------------ mutable option + container look-alikes
+def accepted_words(cls: str, obj, alphabet, upto: int = 3, want: int = 2) -> List[str]:
+    """Words (shortest first) on which the bounded stepwise run of `obj` ends without an exception — input
+    SELECTION only (runs that reach a final state), no verdict is taken from it."""
+    out = []
+    if cls == "GNFA":
+        return out
+    for w in M.words_upto(alphabet, upto):
+        try:
+            _, exn, finished = M.bounded(lambda: obj.read_input_stepwise(w))
+        except RecursionError:
+            raise
+        if finished and exn is None:
+            out.append(w)
+            if len(out) >= want:
+                break
+    return out
+
+
+def lookalike_plan(rng, cls: str, kw, ref, with_binary: bool, n_binary: int = 4):
+    """[name, arity, argument pack]: every unary operation, query, run and conversion (words over the
+    alphabet; sometimes with a symbol outside it), the runs once more on words the automaton ACCEPTS (the
+    reads that end in a final state — a state without a row), a sample of the binary operations."""
+    al = sorted(kw["input_symbols"])
+    foreign = G.foreign_symbol(kw)
+    plan = []
+    for name, _ in M.unary_ops(cls):
+        a = M.arg_pack(rng, al)
+        if rng.random() < 0.2 and a["w"]:
+            i = rng.randrange(len(a["w"]))
+            a["w"] = a["w"][:i] + foreign + a["w"][i + 1:]
+        plan.append([name, 1, a])
+    reads = [n for n, _ in M.unary_ops(cls) if "read_input" in n or n.endswith(("accepts_input", "__contains__"))]
+    for w in accepted_words(cls, ref, al):
+        for name in reads:
+            plan.append([name, 1, dict(M.arg_pack(rng, al), w=w)])
+    bops = M.binary_ops(cls) if with_binary else []
+    for name, _ in rng.sample(bops, min(len(bops), n_binary)):
+        plan.append([name, 2, M.arg_pack(rng, al)])
+    return plan
+
+
+@guarded
+def lookalike_options_case(ctx: Ctx, cls: str, kw, kw2, flavour: str, sv: bool, rng, origin: str, plan=None):
+    """(3)/(5) under allow_mutable_automata=True when the definition is handed over in dict / set
+    SUBCLASSES and look-alikes (collections.defaultdict outer+rows / outer only, OrderedDict, dict subclasses
+    whose __missing__ inserts / answers a default, a set subclass — harness/lookalike.py): the valid
+    definition is accepted; every operation, query and run answers as the DEFAULT configuration built from
+    plain containers does (same value or same exception class); and after every call the object is still a
+    valid automaton — validate() passes and copy() works (a read that silently adds a row to a defaultdict
+    table leaves the answers right and the machine corrupted)."""
+    from harness import lookalike as LA
+    alphabet = kw["input_symbols"]
+    d = M.construct(cls, G._dc(kw), True, False)
+    if d[0] != "ok":
+        return
+    ref, ref2 = d[1], None
+    if M.binary_ops(cls):
+        if kw2 is None:
+            kw2 = G.rand_def(rng, cls, alphabet=sorted(alphabet))
+        d2 = M.construct(cls, G._dc(kw2), True, False)
+        ref2 = d2[1] if d2[0] == "ok" else None
+    rp0 = dict(cls=cls, kind="lookalike_options", kwargs=repr(kw), rhs=repr(kw2) if ref2 is not None else None,
+               flavour=flavour, sv=sv, origin=origin)
+    where = f"should_validate={sv}, allow_mutable=True, definition handed over as {flavour}"
+    ctx.case((cls, "lookalike_options", flavour, sv, E.enc_def(cls, kw)) if nontrivial(kw) else None)
+    ctx.stat(f"lookalike_options:{flavour}:{cls}")
+    with M.options(sv, True):
+        try:
+            x = G.get_class(cls)(**LA.flavoured(cls, kw, flavour))
+            y = G.get_class(cls)(**LA.flavoured(cls, kw2, flavour)) if ref2 is not None else None
+        except RecursionError:
+            raise
+        except Exception as e:  # noqa: BLE001
+            ctx.prop_fail(f"{cls}: a valid definition is rejected ({where}): {type(e).__name__}: {str(e)[:100]}",
+                          dict(rp0, trace=[]), None)
+            return
+    replaying = plan is not None
+    if plan is None:
+        plan = lookalike_plan(rng, cls, kw, ref, ref2 is not None)
+        rng.shuffle(plan)
+    fns = dict(M.unary_ops(cls) + M.binary_ops(cls))
+    trace = []
+    for e in plan:
+        name, ar, a = e[0], e[1], e[2]
+        if name.endswith("clear_cache"):
+            continue
+        trace.append(e)
+        rp = dict(rp0, trace=list(trace))
+        with M.options(True, False):
+            base = run_op(fns[name], ref, a) if ar == 1 else run_op(fns[name], ref, ref2, a)
+        with M.options(sv, True):
+            res = run_op(fns[name], x, a) if ar == 1 else run_op(fns[name], x, y, a)
+        ctx.stat("lookalike_options:calls")
+        if not same_answer(cls, name, res, base, alphabet, ref):
+            det = (f"raises {type(res[1]).__name__}: {str(res[1])[:100]}" if res[0] == "err" else f"answers {res[1]!r:.80}")
+            bdet = (f"raises {type(base[1]).__name__}" if base[0] == "err" else f"answers {base[1]!r:.80}")
+            ctx.prop_fail(f"{name}({a.get('w')!r}) on an accepted {cls} ({where}) {det} — in the default "
+                          f"configuration it {bdet}", rp, None)
+            return
+        if not validate_result(ctx, f"{name} ({where})", res, rp):
+            return
+        # the operand(s) are still valid automata that can be copied
+        for who, obj in (("operand", x), ("second operand", y if ar == 2 else None)):
+            if obj is None:
+                continue
+            with M.options(True, True):
+                v = run_op(lambda o=obj: o.validate())
+                c = run_op(lambda o=obj: o.copy())
+            for what, r in (("validate()", v), ("copy()", c)):
+                if r[0] == "err":
+                    ctx.prop_fail(f"after {name}({a.get('w')!r}) (answer as in the default configuration) the {who}, an "
+                                  f"accepted {cls} ({where}), is no longer a valid automaton: {what} raises "
+                                  f"{type(r[1]).__name__}: {str(r[1])[:100]}", rp, None)
+                    return
+
+
+def lookalike_options_family(ctx: Ctx, rng, count: int):
+    from harness import lookalike as LA
+    for i in range(count):
+        for cls in G.CLASSES:
+            kw = G.rand_def(rng, cls)
+            if cls == "MNTM" and rng.random() < 0.5:
+                kw = G.rand_tm_def(rng, "MNTM", list_results=True)
+            kw2 = G.rand_def(rng, cls, alphabet=sorted(kw["input_symbols"])) if M.binary_ops(cls) else None
+            for j, flavour in enumerate(LA.FLAVOURS):
+                lookalike_options_case(ctx, cls, kw, kw2, flavour, bool((i + j) % 2), rng, "lookalike")
+
+
 # ------------------------------------------------------------------ corpus
 def corpus(ctx: Ctx, rng):
     # F11 (fixed 5a3675d): MNTM transition list [] validates; the native run must not crash
@@ -620,6 +970,8 @@ def run(ctx: Ctx):
     degenerate_family(ctx, rng)
     for _ in range(ctx.budget(6, 60)):
         temporaries_probe(ctx, rng)
+    restored_family(ctx, rng, ctx.budget(12, 120))
+    lookalike_options_family(ctx, rng, ctx.budget(8, 100))
 
     # 1. bounded-exhaustive over (operator, position) on a few definitions per class
     n_seed_defs = ctx.budget(8, 40)
@@ -759,6 +1111,25 @@ def replay(ctx: Ctx, path: str) -> int:
         if got != "InvalidSymbolError":
             ctx.prop_fail(f"NFA.edit_distance over the alphabet {{'', 'a'}} gives {got}, documented: InvalidSymbolError",
                           rp, None)
+    elif kind == "lookalike_options":
+        kw = eval(rp["kwargs"], _env())
+        kw2 = eval(rp["rhs"], _env()) if rp.get("rhs") else None
+        lookalike_options_case(ctx, cls, kw, kw2, rp["flavour"], rp["sv"], rng, "replay",
+                               plan=[list(e) for e in rp.get("trace", [])])
+        for _ in range(5):
+            if ctx.prop_fails:
+                break
+            lookalike_options_case(ctx, cls, kw, kw2, rp["flavour"], rp["sv"], rng, "replay")
+    elif kind == "restored":
+        kw = eval(rp["kwargs"], _env())
+        kw2 = eval(rp["rhs"], _env()) if rp.get("rhs") else None
+        # the recorded calls in the recorded order on a twin made the recorded way; then fresh batteries
+        restored_case(ctx, cls, kw, kw2, rp["sv"], rp["am"], rng, "replay", makers=[rp["how"]],
+                      plan=[list(e) for e in rp.get("trace", [])], used_before=rp.get("used_before"))
+        for _ in range(5):
+            if ctx.prop_fails:
+                break
+            restored_case(ctx, cls, kw, kw2, rp["sv"], rp["am"], rng, "replay", makers=[rp["how"]])
     if ctx.prop_fails:
         print(f"VIOLATION property=C19 replay={path}")
         print("  " + ctx.prop_fails[0]["what"])
